@@ -53,6 +53,11 @@ Fixpoint align_prefix (ts : list tok) : str :=
 
 Definition vexpr_align_prefix (v : s_vexpr) : str := align_prefix (toks_v v).
 
+(* does a token / a token list carry a commodity? *)
+Definition tok_comm (t : tok) : bool :=
+  match t with TLit a => has_commodity a | _ => false end.
+Definition has_comm (ts : list tok) : bool := existsb tok_comm ts.
+
 (* characters an expression consists of apart from commodities: digits , . - + * / ( ) space *)
 Definition expr_punct (c : N) : bool :=
   is_digit c || (c =? 44) || (c =? 46) || (c =? 45) || (c =? 43) || (c =? 42) || (c =? 47) ||
@@ -145,3 +150,49 @@ Definition entry_ok (e : s_entry) : bool :=
   | SAccount n ds => one_line n && forallb account_detail_ok ds
   | SCommodity n ds => one_line n && forallb commodity_detail_ok ds
   end.
+
+(* ---- the lines of a printed entry ---- *)
+Definition mark (p : s_posting) : str := print_clear_state (sp_clear p).
+
+(* a metadata line without its line end: "    ; " and the metadata *)
+Definition meta_text (m : s_metadata) : str := [32; 32; 32; 32; 59; 32] ++ print_metadata m.
+
+Definition posting_lines (width : str -> nat) (p : s_posting) : list str :=
+  posting_line width p :: map meta_text (sp_metadata p).
+
+Definition txn_lines (width : str -> nat) (t : s_txn) : list str :=
+  txn_header t :: map meta_text (st_metadata t) ++ flat_map (posting_lines width) (st_posts t).
+
+Definition wrapped_lines (prefix content : str) : list str := map (app prefix) (str_lines content).
+
+Definition account_detail_lines (d : s_account_detail) : list str :=
+  match d with
+  | ADComment v => wrapped_lines [32; 32; 32; 32; 59] v
+  | ADNote v => wrapped_lines [32; 32; 32; 32; 110; 111; 116; 101; 32] v
+  | ADAlias v => [[32; 32; 32; 32; 97; 108; 105; 97; 115; 32] ++ v]
+  end.
+
+Definition commodity_detail_lines (d : s_commodity_detail) : list str :=
+  match d with
+  | CDComment v => wrapped_lines [32; 32; 32; 32; 59] v
+  | CDNote v => wrapped_lines [32; 32; 32; 32; 110; 111; 116; 101; 32] v
+  | CDAlias v => [[32; 32; 32; 32; 97; 108; 105; 97; 115; 32] ++ v]
+  | CDFormat a => [[32; 32; 32; 32; 102; 111; 114; 109; 97; 116; 32] ++ fst (fmt_amount a)]
+  end.
+
+Definition entry_lines (width : str -> nat) (e : s_entry) : list str :=
+  match e with
+  | STxn t => txn_lines width t
+  | SComment s => wrapped_lines [59] s
+  | SApplyTag key value =>
+      [kw_apply_tag ++ key ++ match value with Some v => print_meta_value v | None => [] end]
+  | SEndApplyTag => [kw_end_apply_tag]
+  | SInclude path => [kw_include ++ path]
+  | SAccount name details => (kw_account ++ name) :: flat_map account_detail_lines details
+  | SCommodity name details => (kw_commodity ++ name) :: flat_map commodity_detail_lines details
+  end.
+
+(* a proper line: not empty, no line end inside *)
+Definition proper_line (l : str) : Prop := l <> [] /\ one_line l = true.
+
+Definition no_lot : s_lot := {| lot_price := None; lot_date := None; lot_note := None |}.
